@@ -37,13 +37,13 @@ impl Prop for C07 {
         }
     }
     fn rule(&self) -> String {
-        "AG from strata rand/expr/lr1/repo (cycle-free, with and without conflicts and precedence, random %avoid_insert), tables that can reduce forever without consuming input excluded and counted (open finding); 8 inputs per grammar of length <=24..30 built from sentences with 1-6 edits, random strings, empty input; token costs all 1 / 1..4 / 1..255. CPCT+ under the hooks (budget override, expansion cap 1500; cap hit => input not judged). Oracle: invariants over (value, errors): returns; error lexemes are input lexemes or a zero-length end-of-input lexeme; indices strictly increase and are >= min(prev+3, n); only the last error may lack repairs; value <=> every error has repairs; value and no errors => recovery-off parse accepts with the same tree. Evaluation = one (grammar,input,costs). Non-trivial: >=2 errors, or an error at end of input, or a last error without repairs; distinct by hash(grammar,input,costs).".into()
+        "AG from strata rand/expr/lr1/repo (cycle-free, with and without conflicts and precedence, random %avoid_insert), tables that can reduce forever without consuming input excluded and counted (open finding); 8 inputs per grammar of length <=24..30 built from sentences with 1-6 edits, random strings, empty input; token costs all 1 / 1..4 / 1..255. CPCT+ under the hooks (budget override, expansion cap 1500; cap hit => input not judged). Oracle: invariants over (value, errors): returns; error lexemes are input lexemes or a zero-length end-of-input lexeme; indices strictly increase and are >= min(prev+3, n); only the last error may lack repairs; value <=> every error has repairs; value and no errors => recovery-off parse accepts with the same tree; for a quarter of the inputs one lexeme is turned into unlexable text (the harness lexer yields an error item and stops or goes on): parse_generictree / parse_map / parse_actions, recovery off and on, must report that lexing error and never a value with an empty error list. Evaluation = one (grammar,input,costs). Non-trivial: >=2 errors, or an error at end of input, or a last error without repairs; distinct by hash(grammar,input,costs).".into()
     }
     fn assumptions(&self) -> Vec<String> {
         vec!["termination is observed through a 20 s watchdog re-confirmed with 200 s in a fresh process".into()]
     }
     fn required_classes(&self, _tier: Tier) -> Vec<&'static str> {
-        vec!["c07:>=2-errors", "c07:error-at-eof", "c07:last-error-unrepaired", "grammar-with-conflicts", "grammar-conflict-free"]
+        vec!["c07:>=2-errors", "c07:error-at-eof", "c07:last-error-unrepaired", "grammar-with-conflicts", "grammar-conflict-free", "c07:lexing-error-in-input"]
     }
     fn evaluate(&self, case: &Value) -> Outcome {
         let mut o = Outcome::new();
@@ -83,6 +83,31 @@ impl Prop for C07 {
             let ctx = |m: &str| format!("{m}; input {input:?} costs {:?}\n{src}", rc.costs);
             if !check_c07(&mut o, &b, input, layout, &p, &ctx) {
                 return o;
+            }
+            // the same input with one lexeme turned into unlexable text: the lexing error must
+            // not get lost (a value with an empty error list would claim the input was accepted)
+            if !input.is_empty() && (input.len() + layout.tail) % 4 == 0 {
+                let k = (input.iter().sum::<usize>() + layout.tail) % input.len();
+                let goes_on = layout.tail % 2 == 1;
+                let start = layout.spans()[k].0;
+                for rk in [lrpar::RecoveryKind::None, lrpar::RecoveryKind::CPCTPlus] {
+                    #[cfg(grmtools_verif)]
+                    {
+                        lrpar::verif_hooks::set_budget_ms(Some(86_400_000));
+                        lrpar::verif_hooks::set_expansion_cap(crate::harness::RECOVERY_CAP);
+                    }
+                    for (mode, value, _npe, lex) in crate::harness::parse_with_lex_error(&b, input, layout, rk, k, goes_on) {
+                        o.class("c07:lexing-error-in-input");
+                        if value && _npe == 0 && lex.is_empty() {
+                            o.fail("wrong", "C07/lexing-error-lost/value-and-no-errors", ctx(&format!("{mode} ({rk:?}): lexeme {k} is unlexable text (the lexer reports an error at {start}{}), yet a value and an empty error list came back", if goes_on { " and goes on" } else { " and stops" })));
+                            return o;
+                        }
+                        if !lex.contains(&start) {
+                            o.fail("wrong", "C07/lexing-error-lost", ctx(&format!("{mode} ({rk:?}): lexeme {k} is unlexable text (the lexer reports an error at {start}), but the error list holds no lexing error there (lexing errors at {lex:?})")));
+                            return o;
+                        }
+                    }
+                }
             }
             if c07_nontrivial(&p, input, &b) {
                 o.nontrivial.push(key(ag, input, &rc.costs));
